@@ -57,9 +57,15 @@ def code_of(outcome) -> int:
     return 8
 
 
-A1_WHAT = ("anyio.Semaphore(..., fast_acquire=True) created while no event loop is running (SemaphoreAdapter) does not "
-           "forward fast_acquire to the backend semaphore: acquire() of a free semaphore yields although fast_acquire "
-           "was requested (A1; LockAdapter forwards it)")
+# OBSERVATION (not a finding, decided by the lead): SemaphoreAdapter - the object anyio.Semaphore(...) returns while
+# no event loop runs - does not forward `fast_acquire` to the backend semaphore.  No clause of C10 (nor C08) is
+# violated: acquire() still checks and yields, it merely yields although the fast mode was requested.  Exactly this
+# parameter of exactly this adapter is therefore recorded in the evidence (coverage.observations) and such runs are
+# compared with the fast_acquire=False model; every other un-forwarded / un-honoured parameter is a VIOLATION.
+OBS_A1 = "semaphore_adapter_ignores_fast_acquire"
+OBS_A1_TEXT = ("anyio.Semaphore(..., fast_acquire=True) created while no event loop is running (SemaphoreAdapter) does "
+               "not forward fast_acquire to the backend semaphore: acquire() of a free semaphore yields; observation, "
+               "no C10 clause involved; LockAdapter forwards it")
 
 
 class BaseRun:
@@ -78,7 +84,7 @@ class BaseRun:
         self.outs: list[int] = []
         self.mon: list[str] = []
         self.flags: set[str] = set()
-        self.known: set[str] = set()
+        self.observed: set[str] = set()    # recorded observations (never suppress a monitor of a C10 clause)
         self._sess = self.world.session()
         if adapter:
             self.obj = make(anyio)
@@ -232,8 +238,9 @@ class SemRun(BaseRun):
                 if after[0] != before[0] - 1:
                     self.hit(f"acquire on the uncontended path: value {before[0]}->{after[0]}")
                 if self.fast_eff and k == 1 and self.adapter:
-                    # construction parameter fast_acquire not honoured by the adapter: recorded finding A1
-                    self.known.add(A1_WHAT)
+                    # fast_acquire not honoured by SemaphoreAdapter: the recorded observation (see OBS_A1), only for
+                    # this parameter of this adapter; the run continues against the fast_acquire=False model
+                    self.observed.add(OBS_A1)
                     self.flags.add("a1_adapter_ignores_fast_acquire")
                     self.fast_eff = False
                 if self.fast_eff:
@@ -756,10 +763,10 @@ def run_script(params, flat_ops, quiesce=True, strict=False, adapter=None):
             op = tuple(flat_ops[i:i + W])
             if strict and op not in r.enabled():
                 return None
-            if not op_possible(r, op) and r.known:
-                # the run left the recorded behaviour through a recorded finding (A1): stop here, the prefix is
-                # still compared with the model
-                r.flags.add("replay_stopped_at_known_finding")
+            if not op_possible(r, op) and r.observed:
+                # the replay left the recorded behaviour through the recorded observation (fast_acquire ignored by
+                # SemaphoreAdapter): stop here, the prefix is still compared with the model
+                r.flags.add("replay_stopped_at_observation")
                 break
             if not op_possible(r, op):
                 # a stored script whose op cannot be performed any more: the implementation left the recorded
@@ -1008,7 +1015,7 @@ def adapter_census():
             if pname not in forwarded:
                 msg = f"{cname}.{lazy}: constructor parameter {pname} is not forwarded to {factory}"
                 if cname == "SemaphoreAdapter" and pname == "fast_acquire":
-                    known.append(A1_WHAT)
+                    known.append(OBS_A1)
                 else:
                     bad.append(msg)
         # --- every member delegates to the member of the same name ---
@@ -1155,8 +1162,10 @@ def check(tier: str) -> int:
         twins.append(random_sem(rng, rng.choice(lens), adapter=True))
     runs += twins
     census_bad, census_known = adapter_census()
-    for kmsg in sorted({k for r in runs for k in r.known} | set(census_known)):
-        rep.known_finding(kmsg)
+    observations = {OBS_A1: any(OBS_A1 in r.observed for r in runs) or OBS_A1 in census_known}
+    if observations[OBS_A1] != (OBS_A1 in census_known):
+        # the syntactic census and the behaviour must tell the same story about the one tolerated parameter
+        census_bad.append(f"census and behaviour disagree about {OBS_A1}: census {OBS_A1 in census_known}, runs {any(OBS_A1 in r.observed for r in runs)}")
     ctor_bad = constructor_checks()
     stage["impl_runs"] = round(time.time() - t0, 1); t0 = time.time()
 
@@ -1268,8 +1277,8 @@ def check(tier: str) -> int:
         "stage_seconds": stage,
         "creation_modes": {"inside_loop_cases": n_inloop, "adapter_cases": len(runs) - n_inloop},
         "adapter_census": {"table": {k: sorted(v[2]) for k, v in ADAPTER_TABLE.items()}, "refusals": census_bad,
-                           "known": census_known},
-        "known_findings_seen": sorted({k for r in runs for k in r.known} | set(census_known)),
+                           "observations": census_known},
+        "observations": dict(observations, **{OBS_A1 + "_text": OBS_A1_TEXT} if observations[OBS_A1] else {}),
         "constructor_validation_failures": ctor_bad,
         "samples": [{"params": runs[i].params(), "ops": readable(runs[i])[:30], "outs": runs[i].outs[:60]} for i in vm_idx[:2] + vm_idx[-2:]],
     })
